@@ -284,6 +284,40 @@ def execute(ctx, case: dict) -> None:
             ctx.violation(case, "invalid limit was accepted", repr(lim))
         ctx.judged(sig=("badlimit", repr(lim)), nontrivial=True)
 
+    elif kind == "flimit":
+        # a factory called with an explicit limit: the object must enforce exactly that limit on later assignments
+        v, plen, lim = case["v"], case["len"], case["L"]
+        cv, cw = bits.prefix_cube(v, plen)
+        if case["factory"] == "fprefix":
+            text = f"{bits.int2ip(cv)}/{plen}"
+        else:
+            text = f"{bits.int2ip(cv)} {bits.int2ip(bits.ALL ^ cw)}"
+        try:
+            obj = getattr(Wildcard, case["factory"])(text, max_ncwb=lim)
+        except Exception as ex:  # pylint: disable=broad-except
+            ctx.violation(case, "a factory raised for an exact network and a valid limit", f"{type(ex).__name__}: {ex}")
+        else:
+            _check_views(case, ctx, obj, cv, cw)
+            if obj.max_ncwb != lim:
+                ctx.violation(case, "the factory did not hand the requested limit to the object", {"asked": lim, "got": obj.max_ncwb})
+            for k in case["ks"]:
+                w = _mask_with_bits(k)
+                try:
+                    obj.line = _line(0x0A000000, w)
+                except NetmaskValueError:
+                    ctx.count("limit_rejections_judged")
+                    if k <= lim:
+                        ctx.violation(case, "mask within the factory's limit was rejected", f"k={k} limit={lim}")
+                else:
+                    ctx.count("limit_accepts_judged")
+                    if k > lim:
+                        ctx.violation(case, "mask above the factory's limit was accepted (approximated)", f"k={k} limit={lim}")
+                    elif k <= 10:
+                        _check_views(case, ctx, obj, 0x0A000000, w)
+                        obj.ipnets()
+            ctx.count("factory_limits_judged")
+        ctx.judged(sig=("flimit", case["factory"], plen in (0, 32), lim), nontrivial=True)
+
     elif kind == "fprefix":
         v, plen = case["v"], case["len"]
         text = f"{bits.int2ip(v)}/{plen}"
@@ -328,6 +362,14 @@ def execute(ctx, case: dict) -> None:
                 pass
         ctx.judged(sig=("fsubnet", plen, clean), nontrivial=True)
     _drain(case, ctx)
+
+
+def _mask_with_bits(k: int) -> int:
+    """A wildcard mask with exactly k non-contiguous bits (every second bit from bit 2 upwards; bit 0 stays 0)."""
+    w = 0
+    for n in range(k):
+        w |= 1 << (2 + 2 * n) if n < 15 else 1 << (1 + 2 * (n - 15))
+    return w
 
 
 def _rand_base(rng) -> int:
@@ -399,6 +441,9 @@ def gen_cases(ctx):
                     v = bits.prefix_cube(v, plen)[0]
                 yield {"k": "fprefix", "v": v, "len": plen}
                 yield {"k": "fsubnet", "v": v, "len": plen}
+                lim = rng.choice([0, 1, 2, 5, 15, 17, 20, 30])
+                yield {"k": "flimit", "factory": rng.choice(["fprefix", "fsubnet"]) if dirty else "fsubnet", "v": v, "len": plen,
+                       "L": lim, "ks": sorted({max(0, lim - 1), lim, min(30, lim + 1), 1})}
     # random part
     kmax = 16 if thorough else 12
     writer = ctx.shard * 4000
